@@ -155,6 +155,36 @@ fn cmp_exact(a: &Number, b: &Number) -> std::cmp::Ordering {
     }
 }
 
+/// asinh, acosh and atanh from ln, ln_1p and sqrt (the fdlibm formulas). std's versions lose accuracy:
+/// atanh(-0.999999999) is off by 5e-9, acosh(1.0000000000000002) by 4e-9 and acosh(1e200) is inf.
+fn asinh(x: f64) -> f64 {
+    let a = x.abs();
+    let r = if a.is_nan() || a.is_infinite() {
+        a
+    } else if a > 1e150 {
+        a.ln() + std::f64::consts::LN_2
+    } else {
+        (a + a * a / (1.0 + (a * a + 1.0).sqrt())).ln_1p()
+    };
+    r.copysign(x)
+}
+
+fn acosh(x: f64) -> f64 {
+    if x.is_nan() || x < 1.0 {
+        f64::NAN
+    } else if x > 1e150 {
+        x.ln() + std::f64::consts::LN_2
+    } else {
+        let t = x - 1.0;
+        (t + (2.0 * t + t * t).sqrt()).ln_1p()
+    }
+}
+
+fn atanh(x: f64) -> f64 {
+    let a = x.abs();
+    (0.5 * (2.0 * a / (1.0 - a)).ln_1p()).copysign(x)
+}
+
 pub fn eval(expr: Node) -> Result<Number, Box<dyn error::Error>> {
     #[cfg(feature = "verif_hooks")]
     crate::verif_hooks::tick(crate::verif_hooks::Point::EvalEntry);
@@ -474,22 +504,22 @@ pub fn eval(expr: Node) -> Result<Number, Box<dyn error::Error>> {
         Arsinh(sub_expr) => {
             let sub_expr = eval(*sub_expr)?;
             match sub_expr {
-                Number::Float(f) => Ok(Number::from(f.asinh())),
-                Number::Integer(i) => Ok(Number::from((i as f64).asinh())),
+                Number::Float(f) => Ok(Number::from(asinh(f))),
+                Number::Integer(i) => Ok(Number::from(asinh(i as f64))),
             }
         }
         Arcosh(sub_expr) => {
             let sub_expr = eval(*sub_expr)?;
             match sub_expr {
-                Number::Float(f) => Ok(Number::from(f.acosh())),
-                Number::Integer(i) => Ok(Number::from((i as f64).acosh())),
+                Number::Float(f) => Ok(Number::from(acosh(f))),
+                Number::Integer(i) => Ok(Number::from(acosh(i as f64))),
             }
         }
         Artanh(sub_expr) => {
             let sub_expr = eval(*sub_expr)?;
             match sub_expr {
-                Number::Float(f) => Ok(Number::from(f.atanh())),
-                Number::Integer(i) => Ok(Number::from((i as f64).atanh())),
+                Number::Float(f) => Ok(Number::from(atanh(f))),
+                Number::Integer(i) => Ok(Number::from(atanh(i as f64))),
             }
         }
         Sqrt(sub_expr) => {
